@@ -74,6 +74,19 @@ def div [Scalar β] (a b : Corr β) : Except CErr (Corr β) :=
     let c := (zipCorr (· / ·) a b).map nanToNone
     if c.all (·.isNone) then .error .allNone else .ok { content := c, N := max a.N b.N }
 
+/-- `Corr(<N x N array of single-valued correlators>)` (correlators.py 64-88): refused unless the array is square, every entry
+    is single-valued and all have the same number of timeslices; timeslice `t` of the result is defined exactly where EVERY entry
+    is defined, and then holds the matrix of the entries' cells -/
+def ofMatrix (cs : List (List (Corr β))) : Except CErr (Corr β) :=
+  let n := cs.length
+  if cs.any (·.length != n) then .error .shape
+  else if cs.flatten.any (·.N != 1) then .error .needN1
+  else match cs.flatten with
+    | [] => .error .shape
+    | c0 :: _ =>
+      if cs.flatten.any (·.T != c0.T) then .error .shape
+      else .ok { content := (List.range c0.T).map (fun t => cs.mapM (·.mapM (·.cell? t))), N := n }
+
 /-- `Corr ⊙ scalar` (Obs, CObs, int, float): every defined slice, `prange` kept -/
 def mapCells (f : β → β) (a : Corr β) : Corr β :=
   { content := a.content.map (·.map (·.map (·.map f))), N := a.N, prange := a.prange }
